@@ -23,10 +23,13 @@ type cop struct {
 	inv, ret int64
 	dup      bool
 	ents     []ent
-	fault    bool  // req / res whose body reader fails (framed request, logging on: the call must fail)
-	failed   bool  // the call returned the message error
-	slow     bool  // the body yields the processor on every read
-	g        *gate // storm step: parked in the body read until the whole step is in flight
+	fault    bool   // req / res whose body reader fails (framed request, logging on: the call must fail)
+	failed   bool   // the call returned the message error
+	slow     bool   // the body yields the processor on every read
+	g        *gate  // storm step: parked in the body read until the whole step is in flight
+	handler  bool   // export / export-and-reset / reset made through the HTTP handler
+	hook     func() // what the handler's client does when the handler starts writing to it
+	hooked   bool
 }
 
 func (o *cop) String() string {
@@ -43,6 +46,9 @@ func (o *cop) String() string {
 			s += " -> err"
 		}
 	case "export", "xreset":
+		if o.handler {
+			s += "(handler)"
+		}
 		s += " -> " + showEnts(o.ents)
 	}
 	return s
@@ -55,7 +61,7 @@ func genProgram(r *core.Rand, g, n int, mode string) []*cop {
 		o := &cop{tag: g*1000 + k}
 		x := r.Intn(100)
 		pick := func() string {
-			if mode == "shared" && r.Chance(2, 5) {
+			if (mode == "shared" || mode == "hmix") && r.Chance(2, 5) {
 				return "s" + strconv.Itoa(r.Intn(3))
 			}
 			return "g" + strconv.Itoa(g) + "i" + strconv.Itoa(r.Intn(3))
@@ -73,6 +79,9 @@ func genProgram(r *core.Rand, g, n int, mode string) []*cop {
 				o.kind = "xreset"
 			default:
 				o.kind = "export"
+			}
+			if o.kind == "xreset" || o.kind == "export" {
+				o.handler = r.Chance(1, 4)
 			}
 			prog = append(prog, o)
 			continue
@@ -98,6 +107,13 @@ func genProgram(r *core.Rand, g, n int, mode string) []*cop {
 			o.kind = "xreset"
 		default:
 			o.kind = "reset"
+		}
+		if mode == "hmix" && o.kind != "req" && o.kind != "res" {
+			// through the HTTP handlers, with a client that is slow to take the answer
+			o.handler = true
+			if r.Chance(2, 3) {
+				o.hook = slowClient
+			}
 		}
 		prog = append(prog, o)
 	}
@@ -191,6 +207,27 @@ func execOp(l *har.Logger, o *cop, clk *int64) string {
 			}
 			o.failed = true
 		}
+	case "export", "xreset", "reset":
+		if !o.handler {
+			return execDirect(l, o, clk)
+		}
+		var hook func()
+		if o.hook != nil {
+			hook = func() { o.hooked = true; o.hook() }
+		}
+		o.inv = atomic.AddInt64(clk, 1)
+		es, bad := serveOp(l, o.kind, hook)
+		o.ret = atomic.AddInt64(clk, 1)
+		if bad != "" {
+			return bad
+		}
+		o.ents = es
+	}
+	return ""
+}
+
+func execDirect(l *har.Logger, o *cop, clk *int64) string {
+	switch o.kind {
 	case "export":
 		o.inv = atomic.AddInt64(clk, 1)
 		h := l.Export()
@@ -437,7 +474,7 @@ const concBound = 20 * time.Second
 
 var concHangs int
 
-// runConc: args = seed, goroutines, ops per goroutine, mode (own | shared | reset | storm | hammer).
+// runConc: args = seed, goroutines, ops per goroutine, mode (own | shared | reset | hmix | storm | hammer).
 func runConc(a []string) core.Result {
 	seed, _ := strconv.ParseUint(a[0], 10, 64)
 	G, _ := strconv.Atoi(a[1])
